@@ -158,6 +158,13 @@ extra = [
     ("single-not-of-plain-string", Neg(B), 0), ("single-not-of-obj", Neg(B), 1), ("single-not-of-const", Neg(CT), 1),
     ("single-not-of-call", Neg(CALL), 1), ("single-not-inside-and", Bin('&&', [Neg(B), C]), 1),
     ("single-not-of-single-not", Neg(Neg(Bin('<', [I, J]))), 1),
+    ("single-not-of-and-of-single-nots", Neg(Bin('&&', [Neg(B), Neg(C)])), 1),
+    ("single-not-of-or-of-single-nots", Neg(Bin('||', [Neg(B), Neg(Bin('<', [I, J]))])), 1),
+    ("single-not-of-and-first-not-last-nested", Neg(Bin('&&', [Neg(B), Bin('<', [I, J])])), 1),
+    ("single-not-of-and-first-plain-last-not", Neg(Bin('&&', [C, Neg(B)])), 1),
+    ("and-of-single-nots", Bin('&&', [Neg(B), Neg(C)]), 1),
+    ("nary-not-three-operands", Bin('!=', [B, C, Bin('<', [I, J])]), 1),
+    ("nary-not-three-nested-operands", Bin('!=', [Bin('<', [I, J]), Bin('<', [J, K]), Bin('<', [K, I])]), 1),
     ("const-int-needs-25-bits", Bin('+', [I, CBIG]), 1), ("const-float-needs-8-digits", Bin('*', [X, CF7]), 1),
     ("const-float-needs-8-digits-compare", Bin('<', [Bin('+', [X, CF7]), CF7]), 1),
     ("call-operand", Bin('&&', [CALL, B]), 1),
